@@ -270,6 +270,46 @@ Proof.
     split; [discriminate | intros X; contradiction].
 Qed.
 
+(** unrelated bases, -38 <= e < 0: the significand is divided by the power B^-e, both written in base NB.
+    With a short dividend (the precondition of repr_div) the quotient is repr_div's, i.e. (C03 theorems
+    repr_div_spec, repr_div_magnitude) the specification rounding of n * NB^k / d with p or p+1 digits;
+    with a long dividend it is the exact long division [div_long_spec]. *)
+Theorem convert_small_neg B p m s e : NB <> B -> ilog_exact NB B <= 1 -> ilog_exact B NB <= 1 ->
+  2 <= B -> 1 <= p -> - threshold_small_exp <= e < 0 ->
+  let '(n, ne) := normalize NB s 0 in
+  let '(d, de) := normalize NB (B ^ (- e)) 0 in
+  0 < d /\
+  (dlen NB n <= p + dlen NB d ->
+     let k := repr_div_shift NB p n d in
+     0 <= k /\
+     exists a, repr_div NB p m n ne d de = Ok a /\ approx_exp a = ne - de - k /\
+       approx_sig a = spec_round m (n * NB ^ k) d /\
+       (match a with AExact q _ => q * d = n * NB ^ k | AInexact _ _ _ => (n * NB ^ k) mod d <> 0 end) /\
+       (Z.rem n d <> 0 -> NB ^ (p - 1) * d <= Z.abs n * NB ^ k < NB ^ (p + 1) * d)) /\
+  (p + dlen NB d < dlen NB n -> convert_base_asis B NB p m s e = div_long NB p m n ne d de).
+Proof.
+  intros Hne H1 H2 HB Hp He.
+  pose proof (normalize_spec NB NB_ge_2 (B ^ (- e)) 0) as Nd.
+  destruct (normalize NB s 0) as [n ne] eqn:En. destruct (normalize NB (B ^ (- e)) 0) as [d de] eqn:Ed.
+  pose proof (Bpow_pos B HB (- e) ltac:(lia)) as Hpw. destruct Nd as [_ Nd].
+  destruct (Nd ltac:(lia)) as (Hd0 & _ & j & Hj & _ & Hv).
+  assert (Hd : 0 < d). { pose proof (Bpow_pos NB NB_ge_2 j Hj). nia. }
+  split; [exact Hd|]. split.
+  - intros Hshort k. destruct (repr_div_spec NB NB_ge_2 p m n ne d de Hp ltac:(lia)) as (Hk & a & Ea & Ex & Es & Et).
+    fold k in Hk, Ex, Es, Et. split; [exact Hk|]. exists a.
+    rewrite (Z.sgn_pos d), Z.mul_1_l, (Z.abs_eq d) in Es by lia.
+    split; [exact Ea|]. split; [exact Ex|]. split; [exact Es|]. split; [exact Et|].
+    intros Hr. destruct (repr_div_magnitude NB NB_ge_2 p n d Hp ltac:(lia) Hr) as [L U]. fold k in L, U.
+    rewrite (Z.abs_eq d) in L, U by lia. split; [exact L | apply U; exact Hshort].
+  - intros Hlong. unfold convert_base_asis. destruct (Z.eqb_spec NB B); [contradiction|].
+    assert (X : forall x y, x <= 1 -> y <= 1 -> (1 <? (if B <? NB then x else 0)) = false /\ (1 <? (if B <? NB then 0 else y)) = false).
+    { intros x y Hx Hy. destruct (B <? NB); split; apply Z.ltb_ge; lia. }
+    destruct (X _ _ H1 H2) as [X1 X2]. rewrite X1, X2.
+    destruct (Z.eqb_spec p 0); [lia|]. destruct (Z.leb_spec (Z.abs e) threshold_small_exp); [|unfold threshold_small_exp in *; lia].
+    destruct (Z.leb_spec 0 e); [lia|]. rewrite En, Ed.
+    destruct (Z.leb_spec (dlen NB n) (p + dlen NB d)); [lia | reflexivity].
+Qed.
+
 End Routes.
 
 (* ---------------------------------------------------------------- refutations of the old code *)
